@@ -46,6 +46,14 @@ def child_env(rng, hashseed, perturb=True):
             S.fired('warning_filter_varied')
         for i in range(rng.randrange(0, 4)):
             env['VERIF_NOISE_%d' % i] = 'x' * rng.randrange(1, 300)
+        # variables programs and libraries commonly consult
+        for k, v in (('NO_COLOR', '1'), ('DEBUG', '1'), ('VERBOSE', '1'), ('LINES', '24'), ('PWD', '/somewhere/else'),
+                     ('LOGNAME', 'oe1rsa'), ('HOSTNAME', 'shack'), ('SHELL', '/bin/zsh'), ('LC_TIME', 'de_AT.UTF-8'),
+                     ('PYTHONUNBUFFERED', '1'), ('CI', 'true'), ('SOURCE_DATE_EPOCH', '1234567890'),
+                     ('MININEC_DEBUG', '1'), ('MPLBACKEND', 'Agg'), ('DISPLAY', ':0'), ('TERM', 'dumb')):
+            if rng.random() < 0.4:
+                env[k] = v
+                S.fired('env_extra_variable')
         S.fired('env_perturb')
     return env
 
